@@ -98,7 +98,8 @@ pub trait RollingValidBinary<T: IsNone>: Vec1View<T> {
         let mut sum2_b = 0.;
         let mut sum_ab = 0.;
         let mut n = 0;
-        let min_periods = min_periods.unwrap_or(window / 2).min(window);
+        // a correlation needs two observations
+        let min_periods = min_periods.unwrap_or(window / 2).min(window).max(2);
         self.rolling2_apply(
             other,
             window,
